@@ -6,13 +6,17 @@ import EAO.Lemmas.Slp
 
 Property theorems only; helper lemmas live in `EAO/Lemmas/Slp.lean`.
 
-* `makeSlp_ok_iff`     — `make_slp` succeeds exactly under the guards (non-empty future, every variable has
-                         a mapping row, cost samples of the right length); otherwise `IndexError` (F-17a).
+* `makeSlp_ok_iff`     — `make_slp` succeeds exactly when the future grid is non-empty (else `IndexError`,
+                         F-17c), the future labels are variables, and bounds and cost samples have one entry
+                         per variable; variables WITHOUT mapping row are fine (they belong to the present).
 * `slp_structure`      — a point of `makeSlp P F cs` is `(x_present, x_future^0 … x_future^S)`: it satisfies
                          the rows/bounds iff every recombined point `z ∘ embed s` satisfies those of `P`; its
                          value is `value_present + 1/(S+1) Σ_s value_future^s`.
 * `slp_value_mean`     — if the scenario cost vectors share the present part, the SLP value is the mean of
                          the scenario values of the recombined points.
+* `slp_mapping_faithful` — the mapping of the SLP: original rows unchanged, the copy for sample `i` of a row of
+                         future variable `j` points at `slpEmbed … (i+1) j`; every label `< n_slp`; `firstRows` and
+                         `boolVars` are the original ones plus their copies.
 * abstract two-stage lemmas over arbitrary feasible sets and value functions:
   `slp_le_wait_and_see`, `ev_le_slp`, `slp_eq_det_of_equal`; their instances for `makeSlp`:
   `slp_le_wait_and_see_problem`, `slp_eq_det_of_equal_problem`.
@@ -26,12 +30,12 @@ open EAO EAO.Slp
 
 /-! ## guards -/
 
-/-- the boolean mask `If` of `make_slp` has one entry per distinct mapping label; it fits the variable
-    vector iff there are as many labels as variables.  For a problem whose mapping labels are variable
-    indices `< n` (what `Portfolio.setup_optim_problem` produces) this says: every variable has a mapping row. -/
-def EveryVarHasRow (P : Problem) : Prop := (firstRows P.mapping []).length = P.n
+/-- the labels `fut_vars` selected as future are variable indices (`If[fut_vars] = True` does not leave the
+    array); always true for problems whose mapping labels are `< n` -/
+def FutLabelsInRange (P : Problem) (F : List Nat) : Prop := ∀ v ∈ slpFutVars P F, v < P.n
 
-instance (P : Problem) : Decidable (EveryVarHasRow P) := inferInstanceAs (Decidable (_ = _))
+instance (P : Problem) (F : List Nat) : Decidable (FutLabelsInRange P F) :=
+  inferInstanceAs (Decidable (∀ v ∈ slpFutVars P F, v < P.n))
 
 /-- bounds have the length of the cost vector -/
 def BoundsWF (P : Problem) : Prop := P.l.length = P.n ∧ P.u.length = P.n
@@ -41,15 +45,20 @@ instance (P : Problem) : Decidable (BoundsWF P) := inferInstanceAs (Decidable (_
 /-- cost vectors produced by `create_cost_samples` have one entry per variable -/
 def SamplesFit (P : Problem) (cs : List (List Rat)) : Prop := ∀ c ∈ cs, c.length = P.n
 
-theorem slpMask_length (P : Problem) (F : List Nat) : (slpMask P F).length = (firstRows P.mapping []).length := by
+theorem slpMask_length (P : Problem) (F : List Nat) : (slpMask P F).length = P.n := by
   simp [slpMask]
 
-/-- `make_slp` builds a problem exactly under the guards; in every other case the model (and the code)
-    fails with `IndexError` -/
+/-- entry `j` of the mask: `j` is one of the future labels -/
+theorem slpMask_getD (P : Problem) (F : List Nat) (j : Nat) (hj : j < P.n) :
+    (slpMask P F).getD j false = (slpFutVars P F).contains j := by
+  simp [slpMask, List.getD_eq_getElem?_getD, hj]
+
+/-- `make_slp` builds a problem exactly under these conditions; in every other case the model (and the code)
+    fails with `IndexError`.  No condition on variables without mapping rows. -/
 theorem makeSlp_ok_iff (P : Problem) (F : List Nat) (cs : List (List Rat)) :
-    (∃ Q, makeSlp P F cs = .ok Q) ↔ F ≠ [] ∧ EveryVarHasRow P ∧ BoundsWF P ∧ SamplesFit P cs := by
-  unfold makeSlp EveryVarHasRow BoundsWF SamplesFit Problem.n
-  simp only [slpMask_length]
+    (∃ Q, makeSlp P F cs = .ok Q) ↔ F ≠ [] ∧ FutLabelsInRange P F ∧ BoundsWF P ∧ SamplesFit P cs := by
+  unfold makeSlp FutLabelsInRange BoundsWF SamplesFit
+  dsimp only
   constructor
   · rintro ⟨Q, h⟩
     split at h
@@ -58,22 +67,28 @@ theorem makeSlp_ok_iff (P : Problem) (F : List Nat) (cs : List (List Rat)) :
       · cases h
       · split at h
         · cases h
-        · rename_i h1 h2 h3
-          refine ⟨by simpa using h1, ?_⟩
-          have h2' : (firstRows P.mapping []).length = P.l.length ∧ (firstRows P.mapping []).length = P.u.length ∧
-              (firstRows P.mapping []).length = P.c.length := by
-            refine ⟨?_, ?_, ?_⟩ <;> (by_contra hh; exact h2 (by simp [hh]))
-          refine ⟨h2'.2.2, ⟨by omega, by omega⟩, fun c hc => ?_⟩
-          have := fun hh => h3 (List.any_eq_true.mpr ⟨c, hc, hh⟩)
-          by_contra hne
-          exact this (by simpa using fun e => hne (by omega))
-  · rintro ⟨hF, hrow, ⟨hl, hu⟩, hs⟩
-    rw [if_neg (by simpa using hF), if_neg (by omega), if_neg]
+        · split at h
+          · cases h
+          · rename_i h1 h2 h3 h4
+            refine ⟨by simpa using h1, fun v hv => ?_, ⟨?_, ?_⟩, fun c hc => ?_⟩
+            · by_contra hh
+              exact h2 (List.any_eq_true.mpr ⟨v, hv, by simpa using hh⟩)
+            · by_contra hh; exact h3 (Or.inl hh)
+            · by_contra hh; exact h3 (Or.inr hh)
+            · by_contra hh
+              exact h4 (List.any_eq_true.mpr ⟨c, hc, by simpa using hh⟩)
+  · rintro ⟨hF, hlab, ⟨hl, hu⟩, hs⟩
+    rw [if_neg (by simpa using hF), if_neg, if_neg (by omega), if_neg]
     · exact ⟨_, rfl⟩
     · intro hh
       obtain ⟨c, hc, hne⟩ := List.any_eq_true.mp hh
       have := hs c hc
       simp at hne
+      omega
+    · intro hh
+      obtain ⟨v, hv, hge⟩ := List.any_eq_true.mp hh
+      have := hlab v hv
+      simp at hge
       omega
 
 theorem makeSlp_error (P : Problem) (F : List Nat) (cs : List (List Rat)) (e : BuildError)
@@ -86,7 +101,9 @@ theorem makeSlp_error (P : Problem) (F : List Nat) (cs : List (List Rat)) (e : B
     · cases h; rfl
     · split at h
       · cases h; rfl
-      · cases h
+      · split at h
+        · cases h; rfl
+        · cases h
 
 /-! ## structure of the SLP -/
 
@@ -114,9 +131,10 @@ theorem makeSlp_eq (P : Problem) (F : List Nat) (cs : List (List Rat)) (Q : Prob
     Q.c = scaleSel ((cs.length : Rat) + 1) mask P.c ++ sampleCosts ((cs.length : Rat) + 1) mask cs ∧
     Q.l = P.l ++ tile (maskSel mask P.l) cs.length ∧
     Q.u = P.u ++ tile (maskSel mask P.u) cs.length ∧
-    Q.rows = P.rows ++ sampleRows mask P.n P.rows 0 cs.length := by
+    Q.rows = P.rows ++ sampleRows mask P.n P.rows 0 cs.length ∧
+    Q.mapping = slpMapping P F cs.length := by
   have hg := (makeSlp_ok_iff P F cs).mp ⟨Q, h⟩
-  obtain ⟨hF, hrow, ⟨hl, hu⟩, hs⟩ := hg
+  obtain ⟨hF, hlab, ⟨hl, hu⟩, hs⟩ := hg
   unfold makeSlp at h
   dsimp only at h
   rw [if_neg (by simpa using hF)] at h
@@ -124,17 +142,18 @@ theorem makeSlp_eq (P : Problem) (F : List Nat) (cs : List (List Rat)) (Q : Prob
   · cases h
   · split at h
     · cases h
-    · injection h with h
-      subst h
-      refine ⟨⟨?_, hl, hu, hs⟩, rfl, rfl, rfl, rfl⟩
-      rw [slpMask_length]; exact hrow
+    · split at h
+      · cases h
+      · injection h with h
+        subst h
+        exact ⟨⟨slpMask_length P F, hl, hu, hs⟩, rfl, rfl, rfl, rfl, rfl⟩
 
 /-- number of variables of the SLP: the original ones plus `S` copies of the future ones -/
 theorem slp_n (P : Problem) (F : List Nat) (cs : List (List Rat)) (Q : Problem)
     (h : makeSlp P F cs = .ok Q) :
     Q.l.length = P.n + cs.length * maskCount (slpMask P F) ∧
     Q.u.length = P.n + cs.length * maskCount (slpMask P F) := by
-  obtain ⟨⟨hm, hl, hu, _⟩, _, hQl, hQu, _⟩ := makeSlp_eq P F cs Q h
+  obtain ⟨⟨hm, hl, hu, _⟩, _, hQl, hQu, _, _⟩ := makeSlp_eq P F cs Q h
   rw [hQl, hQu, List.length_append, List.length_append, length_tile, length_tile,
     length_maskSel _ _ (by omega), length_maskSel _ _ (by omega), hl, hu]
   exact ⟨rfl, rfl⟩
@@ -152,7 +171,7 @@ theorem slp_structure (P : Problem) (F : List Nat) (cs : List (List Rat)) (Q : P
     Q.value z = presentValue mask P.c z +
       mean S (fun s => futureValue mask (scenCost P.c cs s) (fun j => z (slpEmbed mask P.n s j))) := by
   intro mask S
-  obtain ⟨⟨hm, hl, hu, hs⟩, hQc, hQl, hQu, hQr⟩ := makeSlp_eq P F cs Q h
+  obtain ⟨⟨hm, hl, hu, hs⟩, hQc, hQl, hQu, hQr, _⟩ := makeSlp_eq P F cs Q h
   have hm' : (slpMask P F).length = P.n := hm
   constructor
   · unfold Problem.FeasibleRelaxed
@@ -214,6 +233,74 @@ theorem slp_value_mean (P : Problem) (F : List Nat) (cs : List (List Rat)) (Q : 
     | zero => rfl
     | succ i => rw [slpEmbed_succ_unsel _ _ i j hmj]
   rw [mean_congr _ _ _ e, mean_add_const]
+
+/-- with future labels in range, "label is one of `fut_vars`" and "mask entry of the label" are the same -/
+theorem slpIsFut_eq (P : Problem) (F : List Nat) (hlab : FutLabelsInRange P F) (v : Nat) :
+    (slpFutVars P F).contains v = (slpMask P F).getD v false := by
+  by_cases hv : v < P.n
+  · rw [slpMask_getD P F v hv]
+  · have h1 : (slpMask P F).getD v false = false := by
+      simp [List.getD_eq_getElem?_getD, slpMask_length, hv]
+    rw [h1]
+    by_contra hc
+    have : v ∈ slpFutVars P F := by simpa using hc
+    exact hv (hlab v this)
+
+/-- number of variables of the SLP -/
+theorem slp_n' (P : Problem) (F : List Nat) (cs : List (List Rat)) (Q : Problem)
+    (h : makeSlp P F cs = .ok Q) : Q.n = P.n + cs.length * maskCount (slpMask P F) := by
+  obtain ⟨⟨hm, _, _, hs⟩, hQc, _⟩ := makeSlp_eq P F cs Q h
+  have hm' : (slpMask P F).length = P.n := hm
+  unfold Problem.n
+  rw [hQc, List.length_append, length_scaleSel, length_sampleCosts _ _ cs (fun c hc => by rw [hs c hc, hm'])]
+
+/-- **slp_mapping_faithful.**  The mapping of the SLP keeps its index on VARIABLES: the original rows are
+    unchanged; for every sample `i` the rows of the future variables (all rows of such a variable) are appended
+    with the label of the copy, `slpEmbed mask n (i+1) j`.  If the labels of `P` are variables (`< n`), every label
+    of the SLP is a variable of the SLP, the first rows (`~index.duplicated(keep='first')`, used by `dcf`,
+    `optimize`, the read-out) are the original first rows plus their copies, and the boolean variables are the
+    original ones plus the copies of the future ones — for any number of mapping rows per variable and with
+    variables that have no mapping row. -/
+theorem slp_mapping_faithful (P : Problem) (F : List Nat) (cs : List (List Rat)) (Q : Problem)
+    (h : makeSlp P F cs = .ok Q) (hwf : ∀ m ∈ P.mapping, m.var < P.n) :
+    let mask := slpMask P F
+    Q.mapping = P.mapping ++ copyBlocks mask P.n P.mapping cs.length ∧
+    (∀ m ∈ Q.mapping, m.var < Q.n) ∧
+    firstRows Q.mapping [] = firstRows P.mapping [] ++ copyBlocks mask P.n (firstRows P.mapping []) cs.length ∧
+    Q.boolVars = P.boolVars ++ (List.range cs.length).flatMap (fun i =>
+      (P.boolVars.filter fun j => mask.getD j false).map (slpEmbed mask P.n (i + 1))) := by
+  intro mask
+  have hlab := ((makeSlp_ok_iff P F cs).mp ⟨Q, h⟩).2.1
+  have hQm := (makeSlp_eq P F cs Q h).2.2.2.2.2
+  have hmap : Q.mapping = P.mapping ++ copyBlocks mask P.n P.mapping cs.length := by
+    rw [hQm]
+    unfold slpMapping slpCopyRows copyBlocks
+    simp only [slpIsFut_eq P F hlab, List.map_flatMap, List.map_map]
+    rfl
+  have hfirst : firstRows Q.mapping [] =
+      firstRows P.mapping [] ++ copyBlocks mask P.n (firstRows P.mapping []) cs.length := by
+    rw [hmap, firstRows_append, firstRows_copyBlocks mask P.n P.mapping hwf]
+  refine ⟨hmap, ?_, hfirst, ?_⟩
+  · intro m hm
+    rw [hmap] at hm
+    rw [slp_n' P F cs Q h]
+    rcases List.mem_append.mp hm with hm | hm
+    · have := hwf m hm; omega
+    · exact (copyBlocks_var mask P.n P.mapping cs.length m hm).2
+  · unfold Problem.boolVars
+    rw [hfirst]
+    simp only [copyBlocks, List.filter_append, List.map_append, List.filter_flatMap, List.map_flatMap,
+      List.filter_map, List.map_map, List.filter_filter]
+    congr 1
+    apply List.flatMap_congr
+    intro i _
+    have e1 : ((fun x : MapRow => x.var) ∘ relabel (slpEmbed mask P.n (i + 1))) =
+        (slpEmbed mask P.n (i + 1) ∘ fun x => x.var) := by funext m; rfl
+    have e2 : (fun a : MapRow => ((fun x : MapRow => x.isBool) ∘ relabel (slpEmbed mask P.n (i + 1))) a && mask.getD a.var false) =
+        (fun a => ((fun j => mask.getD j false) ∘ fun x : MapRow => x.var) a && a.isBool) := by
+      funext a; simp [Bool.and_comm]
+    rw [e1, e2]
+
 
 /-! ## abstract two-stage lemmas (arbitrary feasible sets and value functions) -/
 section TwoStage
@@ -306,6 +393,14 @@ theorem slp_eq_det_of_equal_problem (P : Problem) (F : List Nat) (cs : List (Lis
     (fun s hs x hx => by unfold scenValue; rw [hsc s hs]; exact hub x hx) z hz
   rwa [mean_const] at this
 
+/- TARGET (not proved): `ev_le_slp_problem` — the instance of `ev_le_slp` for `makeSlp`: given points `w s`
+   (`s = 0 … S`) feasible for `P` that agree on the present variables, the glued point
+   `z k = if k < n then w 0 k else w (q / n_f + 1) (the (q % n_f)-th future variable)`, `q = k - n`, satisfies
+   `z ∘ embed s = w s` on `[0, n)` and is therefore feasible for the SLP by `slp_structure`; missing: the inverse of
+   `maskRank` and the lemma that `FeasibleRelaxed` reads a point only below `n` (needs rows with columns `< n`).
+   The abstract statement `ev_le_slp` and `slp_structure` are proved; the gluing is what the implementation's
+   solution vector `(x, x_f^1 … x_f^S)` is by construction. -/
+
 /-! ## robust target -/
 
 /-- `w` is the worst case (minimum over the scenarios `0 … S`) of the values `v s x` -/
@@ -373,7 +468,7 @@ private def viewLabels (r : Except BuildError Problem) : List Nat :=
   | .error _ => []
   | .ok Q => Q.mapping.map (·.var)
 
-example : EveryVarHasRow exP ∧ BoundsWF exP := by decide
+example : FutLabelsInRange exP [1, 2] ∧ BoundsWF exP := by decide
 example : slpMask exP [1, 2] = [false, true, true] := by decide
 example : view (makeSlp exP [1, 2] [[1, 4, 5], [0, 1, 1]]) = view (.ok exQ) := by decide +kernel
 example : viewRows (makeSlp exP [1, 2] [[1, 4, 5], [0, 1, 1]]) = viewRows (.ok exQ) := by decide +kernel
@@ -388,16 +483,28 @@ example : presentValue [false, true, true] exP.c exZ = -1/2 := by decide +kernel
 example : (List.range 3).map (fun s => futureValue [false, true, true] (scenCost exP.c [[1, 4, 5], [0, 1, 1]] s)
     (fun j => exZ (slpEmbed [false, true, true] 3 s j))) = [-7/2, -5/2, -1] := by decide +kernel
 example : view (makeSlp exP [] [[1, 4, 5]]) = .inl .index := by decide +kernel
-/-- a variable without mapping row (F-17a): the mask has 2 entries for 3 variables -/
-example : view (makeSlp { exP with mapping := [mr 0 0, mr 2 2] } [1, 2] []) = .inl .index := by decide +kernel
-/-- two mapping rows per variable (transport): afterwards the mapping labels enumerate ROWS — 6 labels
-    `0 … 5` for 3 variables `0 … 2`, so labels 3, 4, 5 point outside the variable vector -/
+/-- a variable without mapping row (variable 1; F-17a before commit c776509) belongs to the present: only
+    variable 2 is copied, its copy row carries label 3 -/
+private def exR : Problem := { exP with mapping := [mr 0 0, mr 2 2] }
+example : slpMask exR [1, 2] = [false, false, true] := by decide
+example : view (makeSlp exR [1, 2] [[1, 4, 5]]) = .inr [[1, 2, 3/2, 5/2], [0, 0, 0, 0], [1, 1, 1, 1]] := by decide +kernel
+example : viewLabels (makeSlp exR [1, 2] [[1, 4, 5]]) = [0, 2, 3] := by decide +kernel
+/-- two mapping rows per variable (transport): both rows of future variable 1 are copied and both copies carry
+    the label 2 of the new variable (before commit c776509 the labels were the row numbers `0 … 5`, F-17g) -/
 private def mr2 (v t : Nat) : MapRow :=
   { var := v, asset := "a", node := some "m", kind := .d, step := t, factor := (-1 : Rat), isBool := false, varName := "disp" }
 private def exT : Problem :=
   { c := [1, 2], l := [0, 0], u := [1, 1], rows := [], mapping := [mr 0 0, mr 1 1, mr2 0 0, mr2 1 1], nodal := [] }
 example : view (makeSlp exT [1] [[1, 5]]) = .inr [[1, 1, 5/2], [0, 0, 0], [1, 1, 1]] := by decide +kernel
-example : viewLabels (makeSlp exT [1] [[1, 5]]) = [0, 1, 2, 3, 4, 5] := by decide +kernel
+example : viewLabels (makeSlp exT [1] [[1, 5]]) = [0, 1, 0, 1, 2, 2] := by decide +kernel
+example : slpColumn exT [1] 1 = [none, some (-1), none, some (-1), some 0, some 0] := by decide
+/-- boolean flags: variables 0 (present) and 1 (future) are boolean; with two samples the boolean variables of the
+    SLP are 0, 1 and the copies 2, 3 of variable 1 -/
+private def exB : Problem :=
+  { c := [1, 2], l := [0, 0], u := [1, 1], rows := [],
+    mapping := [{ mr 0 0 with isBool := true }, { mr 1 1 with isBool := true }, mr2 1 1], nodal := [] }
+example : (match makeSlp exB [1] [[1, 5], [1, 7]] with | .ok Q => Q.boolVars | .error _ => []) = [0, 1, 2, 3] := by
+  decide +kernel
 example : robustObjective [[1, 2, 3], [3, 0, 0]] (fun j => [1, 1, 0].getD j 0) = some (-3) := by decide +kernel
 end Example
 
